@@ -73,7 +73,7 @@ def decode_bstr(lit):
     return out
 
 
-def apply_core_rules(text, log, where, keep_pub=False, keep_derive=()):
+def apply_core_rules(text, log, where, keep_pub=False, keep_derive=(), drop_derive=()):
     """R1 (attrs/docs/pub), R2 (to_be_bytes), R3 (byte strings), R4 (assert_invariant!)."""
     toks = lex(text)
     out = []
@@ -109,7 +109,7 @@ def apply_core_rules(text, log, where, keep_pub=False, keep_derive=()):
                 a = norm_ws(attr)
                 md = re.match(r'#\[derive\((.*)\)\]$', a)
                 if md:
-                    keep = [x.strip() for x in md.group(1).split(',') if x.strip() in ('Clone', 'Copy') or x.strip() in keep_derive]
+                    keep = [x.strip() for x in md.group(1).split(',') if (x.strip() in ('Clone', 'Copy') or x.strip() in keep_derive) and x.strip() not in drop_derive]
                     if 'PartialEq' in keep and 'Eq' in keep:
                         keep.append('Structural')   # derived PartialEq is structural equality
                     if keep:
@@ -496,6 +496,27 @@ def splice_function(src_text, spec, log, where):
         elif kind == 'leave':
             lint_ghost(lines, where)
             add(sig[bc].start, lines, 'overlay:leave%d' % kk)
+    # ghost iterator names for `for` loops:  for P in E  ->  for P in name: E
+    for kk, nm in spec.get('iters', []):
+        if kk < 1 or kk > len(loops):
+            raise ExtractError('iter %d: no such loop in %s' % (kk, where))
+        kw, bo, bc = loops[kk - 1]
+        if sig[kw].text != 'for':
+            raise ExtractError('iter %d: not a for loop in %s' % (kk, where))
+        j = kw + 1
+        depth = 0
+        while j < bo:
+            x = sig[j]
+            if x.text in '([{':
+                depth += 1
+            elif x.text in ')]}':
+                depth -= 1
+            elif x.kind == 'ident' and x.text == 'in' and depth == 0:
+                break
+            j += 1
+        if j >= bo:
+            raise ExtractError('iter %d: no `in` in %s' % (kk, where))
+        inserts.append((sig[j].end, 0, ' %s:' % nm, 'overlay:iter'))
     # line anchors
     line_starts = [0]
     for m in re.finditer('\n', text):
@@ -576,6 +597,10 @@ def parse_template(path):
         l = lines[i]
         m = re.match(r'\s*//@@\s+(fn|struct|enum|const|mod)\s+(\S+)\s+(\S+)\s*$', l)
         if not m:
+            if re.match(r'\s*//@@\s+rlimit\s+\d+', l):
+                buf.append('// ' + l.strip())
+                i += 1
+                continue
             if re.match(r'\s*//@@', l):
                 raise ExtractError('%s:%d: stray directive %s' % (path, i + 1, l.strip()))
             buf.append(l)
@@ -614,6 +639,8 @@ def parse_template(path):
                     item['keepderive'] = arg.split()
                 elif cmd == 'keeppub':
                     item['keeppub'] = True
+                elif cmd == 'dropderive':
+                    item['dropderive'] = arg.split()
                 elif cmd == 'specfile':
                     sp = os.path.join(os.path.dirname(os.path.dirname(os.path.abspath(__file__))), arg)
                     item['spec'].extend(open(sp).read().rstrip('\n').split('\n'))
@@ -621,6 +648,9 @@ def parse_template(path):
                     cur = item['spec']
                 elif cmd == 'top':
                     cur = item['top']
+                elif cmd == 'iter':
+                    kk, nm = arg.split()
+                    item.setdefault('iters', []).append((int(kk), nm))
                 elif cmd in ('loop', 'enter', 'leave'):
                     cur = []
                     item['loopins'].append((cmd, int(arg), cur))
@@ -691,11 +721,7 @@ def build_unit(template, repo, out_rs, out_map):
         if item['kind'] == 'fn':
             olines, rewritten = splice_function(text, item, log, where)
         else:
-            t2 = apply_core_rules(text, log, where, keep_pub=(item['kind'] == 'mod'), keep_derive=tuple(item.get('keepderive', ())))
-            if item['kind'] == 'mod':
-                t2 = re.sub(r'^pub\s+', '', t2)
-            if item.get('keeppub'):
-                t2 = re.sub(r'\b(struct|enum)\b', r'pub \1', t2, count=1)
+            t2 = apply_core_rules(text, log, where, keep_pub=True, keep_derive=tuple(item.get('keepderive', ())), drop_derive=tuple(item.get('dropderive', ())))
             for r in item['rules']:
                 body = ' '.join(r[1:])
                 m = re.match(r'<<(.*)>>\s*==>\s*<<(.*)>>\s*(\d*)$', body, re.S)
